@@ -1037,6 +1037,16 @@ func producerOrder(p *load.Prog, r *oblig.Run, rule string) {
 		scan(an)
 	}
 	if len(prods) < 2 {
+		// the producer body is a named function createJobs starts (go sendJobs(...))
+		for _, c := range su.Calls(cj) {
+			if h := c.Common().StaticCallee(); h != nil && pkgPathOf(h) == load.PkgRoot && len(h.Blocks) > 0 {
+				if _, isGo := c.(*ssa.Go); isGo {
+					scan(h)
+				}
+			}
+		}
+	}
+	if len(prods) < 2 {
 		r.Add(rule, "producers of createJobs", p.Pos(cj.Pos()), "job producers called by createJobs").Unknown(fmt.Sprintf("expected at least two job producers in createJobs, found %d", len(prods)))
 		return
 	}
